@@ -4,7 +4,6 @@ import (
 	"go/ast"
 	"go/token"
 	"go/types"
-	"strings"
 
 	"verifcheck/core"
 )
@@ -89,6 +88,124 @@ func runC16(c *Ctx) {
 	info := f.Info()
 	g := c.G(f)
 
+	// The local variables are identified by the role they play, not by their names: roles are
+	// anchored in the fields of MemoryEstimate they end up in and in each other.
+	roles := map[string]types.Object{}
+	identObj := func(e ast.Expr) types.Object {
+		if id, ok := ast.Unparen(e).(*ast.Ident); ok {
+			if v, isV := info.Uses[id].(*types.Var); isV && !v.IsField() {
+				return v
+			}
+		}
+		return nil
+	}
+	fieldRole := map[string]string{"Layers": "layerCount", "GPUSizes": "gpuAllocations", "VRAMSize": "memoryRequiredPartial", "TotalSize": "memoryRequiredTotal",
+		"graphFullOffload": "graphFullOffload", "graphPartialOffload": "graphPartialOffload", "projectorWeights": "projectorWeights", "projectorGraph": "projectorGraph"}
+	ast.Inspect(f.Body, func(n ast.Node) bool {
+		switch x := n.(type) {
+		case *ast.KeyValueExpr:
+			if k, ok := x.Key.(*ast.Ident); ok {
+				if r, isR := fieldRole[k.Name]; isR {
+					if o := identObj(x.Value); o != nil {
+						roles[r] = o
+					}
+				}
+			}
+		case *ast.AssignStmt:
+			if len(x.Lhs) == 1 && len(x.Rhs) == 1 && x.Tok == token.ASSIGN {
+				if se, ok := ast.Unparen(x.Lhs[0]).(*ast.SelectorExpr); ok && core.ObjNameOfType(info.TypeOf(se.X)) == "llm.MemoryEstimate" {
+					if r, isR := fieldRole[se.Sel.Name]; isR {
+						if o := identObj(x.Rhs[0]); o != nil {
+							roles[r] = o
+						}
+					}
+				}
+			}
+		}
+		return true
+	})
+	isRole := func(role string) func(n ast.Node) bool {
+		return func(n ast.Node) bool {
+			id, ok := n.(*ast.Ident)
+			return ok && roles[role] != nil && info.Uses[id] == roles[role]
+		}
+	}
+	isRoleExpr := func(e ast.Expr, role string) bool { return roles[role] != nil && identObj(e) == roles[role] }
+	indexesRole := func(e ast.Expr, role string) bool {
+		ix, ok := ast.Unparen(e).(*ast.IndexExpr)
+		return ok && isRoleExpr(ix.X, role)
+	}
+	// derived roles
+	ast.Inspect(f.Body, func(n ast.Node) bool {
+		switch x := n.(type) {
+		case *ast.AssignStmt:
+			if len(x.Lhs) != 1 || len(x.Rhs) != 1 {
+				return true
+			}
+			// gpuZeroOverhead := projectorWeights + projectorGraph
+			if be, ok := ast.Unparen(x.Rhs[0]).(*ast.BinaryExpr); ok && be.Op == token.ADD {
+				if (isRoleExpr(be.X, "projectorWeights") && isRoleExpr(be.Y, "projectorGraph")) || (isRoleExpr(be.Y, "projectorWeights") && isRoleExpr(be.X, "projectorGraph")) {
+					if id, isID := x.Lhs[0].(*ast.Ident); isID {
+						roles["gpuZeroOverhead"] = info.ObjectOf(id)
+					}
+				}
+				// total = partial + overflow
+				if isRoleExpr(x.Lhs[0], "memoryRequiredTotal") {
+					if isRoleExpr(be.X, "memoryRequiredPartial") {
+						roles["overflow"] = identObj(be.Y)
+					} else if isRoleExpr(be.Y, "memoryRequiredPartial") {
+						roles["overflow"] = identObj(be.X)
+					}
+				}
+			}
+		}
+		return true
+	})
+	ast.Inspect(f.Body, func(n ast.Node) bool {
+		if x, ok := n.(*ast.AssignStmt); ok && len(x.Lhs) == 1 && len(x.Rhs) == 1 && x.Tok == token.ASSIGN && isRoleExpr(x.Rhs[0], "gpuZeroOverhead") {
+			// gzo = gpuZeroOverhead (first admitted GPU)
+			if id, isID := x.Lhs[0].(*ast.Ident); isID {
+				roles["gzo"] = info.ObjectOf(id)
+				for _, at := range g.AtomsAt(g.Locate(x)) {
+					if be, isB := ast.Unparen(at.Expr).(*ast.BinaryExpr); isB && be.Op == token.EQL && at.Val {
+						if p, isLen := isLenOf(info, be.X); isLen && len(p.Fields) == 0 {
+							roles["gpusWithSpace"] = p.Root
+						}
+					}
+				}
+			}
+		}
+		return true
+	})
+	// layerCounts and layerSize: next to the first increment of layerCount
+	for _, b := range g.Blocks {
+		var hasInc bool
+		for _, nd := range g.Nodes(b) {
+			if id, ok := nd.(*ast.IncDecStmt); ok && id.Tok == token.INC && isRoleExpr(id.X, "layerCount") {
+				hasInc = true
+			}
+		}
+		if !hasInc {
+			continue
+		}
+		for _, nd := range g.Nodes(b) {
+			if id, ok := nd.(*ast.IncDecStmt); ok && id.Tok == token.INC {
+				if ix, isIx := ast.Unparen(id.X).(*ast.IndexExpr); isIx && roles["layerCounts"] == nil {
+					roles["layerCounts"] = identObj(ix.X)
+				}
+			}
+			if a, ok := nd.(*ast.AssignStmt); ok && a.Tok == token.ADD_ASSIGN && indexesRole(a.Lhs[0], "gpuAllocations") && roles["layerSize"] == nil {
+				roles["layerSize"] = identObj(a.Rhs[0])
+			}
+		}
+	}
+	for _, r := range []string{"layerCount", "gpuAllocations", "memoryRequiredPartial", "memoryRequiredTotal", "graphFullOffload", "graphPartialOffload", "gpuZeroOverhead", "gzo", "gpusWithSpace", "layerCounts", "layerSize", "overflow"} {
+		if roles[r] == nil {
+			c.Undecided("C16-R1", "anchor:role "+r+" in EstimateGPULayers", "-", "anchor lost: the variable playing this role could not be identified from MemoryEstimate's fields")
+			return
+		}
+	}
+
 	c.Rule("C16-R1", "guarded placement: every `gpuAllocations[x] += v` is (a) on the true edge of `X.FreeMemory > rhs` whose operand closure contains the overhead, gpuAllocations of the same GPU, both graph sizes and v itself, or (b) the admission booking on the fall-through edge of `X.FreeMemory < rhs` whose closure contains overhead, the first-GPU overhead, both graph sizes, MinimumMemory and the layer buffer, or (c) a pre-accounted value (a graph size or the first-GPU overhead) that every guard of kind (a)/(b) already carries; guards on unsigned quantities are written additively (bare FreeMemory on one side, no subtraction on the other: a subtraction wraps when a GPU is nearly full); every layer-count increment sits on a guarded edge")
 	// overhead variable: assigned from envconfig.GpuOverhead()
 	var overheadObj types.Object
@@ -140,11 +257,11 @@ func runC16(c *Ctx) {
 	c.Expect("C16-R1", "free-memory guards in EstimateGPULayers", len(guards), 3)
 	for i, gd := range guards {
 		c.Check("C16-R1", f.Key()+" guard#"+itoa(i+1)+" ("+gd.kind+") written additively", c.Pos(gd.cond), gd.problem == "", "unsigned guard: "+gd.problem+": FreeMemory - reserved wraps to a huge value when FreeMemory < reserved, admitting a GPU that cannot hold the fixed reservation")
-		both := closureMentions(g, gd.rhs, identNamed("graphPartialOffload")) && closureMentions(g, gd.rhs, identNamed("graphFullOffload"))
+		both := closureMentions(g, gd.rhs, isRole("graphPartialOffload")) && closureMentions(g, gd.rhs, isRole("graphFullOffload"))
 		c.Check("C16-R1", f.Key()+" guard#"+itoa(i+1)+" ("+gd.kind+") reserves both graph sizes", c.Pos(gd.cond), both, "the graph that is finally added is graphFullOffload or graphPartialOffload: a guard that reserves only one of them lets the plan exceed free memory when the other is larger")
 		c.Check("C16-R1", f.Key()+" guard#"+itoa(i+1)+" ("+gd.kind+") reserves the configured overhead", c.Pos(gd.cond), closureMentions(g, gd.rhs, isOverhead), "every guard must include envconfig.GpuOverhead()")
 		if gd.kind == "admit" {
-			ok := closureMentions(g, gd.rhs, selNamed("MinimumMemory")) && closureMentions(g, gd.rhs, identNamed("layerSize")) && closureMentions(g, gd.rhs, identNamed("gzo"))
+			ok := closureMentions(g, gd.rhs, selNamed("MinimumMemory")) && closureMentions(g, gd.rhs, isRole("layerSize")) && closureMentions(g, gd.rhs, isRole("gzo"))
 			c.Check("C16-R1", f.Key()+" admission guard covers minimum memory, layer buffer and first-GPU overhead", c.Pos(gd.cond), ok, "the admission test must include MinimumMemory, layerSize and the projector overhead of the first admitted GPU")
 		}
 	}
@@ -158,8 +275,7 @@ func runC16(c *Ctx) {
 		if !isIx {
 			return false
 		}
-		id, isID := ast.Unparen(ix.X).(*ast.Ident)
-		return isID && id.Name == "gpuAllocations"
+		return isRoleExpr(ix.X, "gpuAllocations")
 	})
 	c.Expect("C16-R1", "additions to gpuAllocations", len(adds), 6)
 	nPlace := 0
@@ -170,29 +286,33 @@ func runC16(c *Ctx) {
 		vs := core.ExprString(val)
 		key := f.Key() + " add:gpuAllocations[" + core.ExprString(ix.Index) + "] += " + vs
 		// (c) pre-accounted values
-		if vs == "graphFullOffload" || vs == "graphPartialOffload" {
+		if isRoleExpr(val, "graphFullOffload") || isRoleExpr(val, "graphPartialOffload") {
+			vrole := "graphFullOffload"
+			if isRoleExpr(val, "graphPartialOffload") {
+				vrole = "graphPartialOffload"
+			}
 			ok := len(guards) > 0
 			for _, gd := range guards {
-				if !closureMentions(g, gd.rhs, identNamed(vs)) {
+				if !closureMentions(g, gd.rhs, isRole(vrole)) {
 					ok = false
 				}
 			}
 			// only for GPUs that received layers
 			onCount := false
 			for _, at := range g.AtomsAt(ad.Loc) {
-				if be, isB := ast.Unparen(at.Expr).(*ast.BinaryExpr); isB && be.Op == token.LEQ && !at.Val && strings.Contains(core.ExprString(be.X), "layerCounts[") {
+				if be, isB := ast.Unparen(at.Expr).(*ast.BinaryExpr); isB && be.Op == token.LEQ && !at.Val && indexesRole(be.X, "layerCounts") {
 					onCount = true
 				}
 			}
 			c.Check("C16-R1", key+" pre-accounted in every guard", c.Pos(a), ok && onCount, "a graph size may be added after placement only if every guard reserved it, and only for GPUs with layers")
 			continue
 		}
-		if vs == "gpuZeroOverhead" {
+		if isRoleExpr(val, "gpuZeroOverhead") {
 			// index is gpusWithSpace[0].i and the admission guard carried gzo
-			okIdx := closureMentions(g, ix.Index, identNamed("gpusWithSpace"))
+			okIdx := closureMentions(g, ix.Index, isRole("gpusWithSpace"))
 			okG := false
 			for _, gd := range guards {
-				if gd.kind == "admit" && closureMentions(g, gd.rhs, identNamed("gzo")) {
+				if gd.kind == "admit" && closureMentions(g, gd.rhs, isRole("gzo")) {
 					okG = true
 				}
 			}
@@ -200,11 +320,15 @@ func runC16(c *Ctx) {
 			okGzo := false
 			for _, h := range g.Find(func(n ast.Node) bool {
 				as, ok := n.(*ast.AssignStmt)
-				return ok && len(as.Lhs) == 1 && core.ExprString(as.Lhs[0]) == "gzo" && core.ExprString(as.Rhs[0]) == "gpuZeroOverhead"
+				return ok && len(as.Lhs) == 1 && len(as.Rhs) == 1 && isRoleExpr(as.Lhs[0], "gzo") && isRoleExpr(as.Rhs[0], "gpuZeroOverhead")
 			}) {
 				for _, at := range g.AtomsAt(h.Loc) {
-					if strings.Contains(core.ExprString(at.Expr), "len(gpusWithSpace) == 0") && at.Val {
-						okGzo = true
+					if be, isB := ast.Unparen(at.Expr).(*ast.BinaryExpr); isB && be.Op == token.EQL && at.Val {
+						if p, isLen := isLenOf(info, be.X); isLen && p.Root == roles["gpusWithSpace"] {
+							if v, isC := core.ConstInt(info, be.Y); isC && v == 0 {
+								okGzo = true
+							}
+						}
 					}
 				}
 			}
@@ -232,7 +356,8 @@ func runC16(c *Ctx) {
 			switch x := n.(type) {
 			case *ast.Ident:
 				if v, isVar := info.Uses[x].(*types.Var); isVar && !v.IsField() {
-					if !closureMentions(g, on.rhs, identNamed(x.Name)) {
+					obj := info.Uses[x]
+					if !closureMentions(g, on.rhs, func(m ast.Node) bool { id, isID := m.(*ast.Ident); return isID && info.Uses[id] == obj }) {
 						okVal = false
 					}
 				}
@@ -250,7 +375,7 @@ func runC16(c *Ctx) {
 			idx := core.ExprString(ix.Index)
 			okSame = closureMentions(g, on.rhs, func(n ast.Node) bool {
 				x, ok := n.(*ast.IndexExpr)
-				return ok && core.ExprString(x.X) == "gpuAllocations" && core.ExprString(x.Index) == idx
+				return ok && isRoleExpr(x.X, "gpuAllocations") && core.ExprString(x.Index) == idx
 			})
 			// FreeMemory of g.g where index is g.i: same root variable
 			rootF := core.PathOf(info, on.free).Root
@@ -280,28 +405,26 @@ func runC16(c *Ctx) {
 		if !ok || id.Tok != token.INC {
 			return false
 		}
-		x, isID := ast.Unparen(id.X).(*ast.Ident)
-		return isID && x.Name == "layerCount"
+		return isRoleExpr(id.X, "layerCount")
 	})
 	c.Expect("C16-R2", "layerCount increments", len(incs), 2)
 	for i, in := range incs {
 		pair, book := 0, 0
 		for _, n := range g.Nodes(in.Loc.B) {
-			if id, ok := n.(*ast.IncDecStmt); ok && id.Tok == token.INC && strings.HasPrefix(core.ExprString(id.X), "layerCounts[") {
+			if id, ok := n.(*ast.IncDecStmt); ok && id.Tok == token.INC && indexesRole(id.X, "layerCounts") {
 				pair++
 			}
-			if a, ok := n.(*ast.AssignStmt); ok && a.Tok == token.ADD_ASSIGN && strings.HasPrefix(core.ExprString(a.Lhs[0]), "gpuAllocations[") {
+			if a, ok := n.(*ast.AssignStmt); ok && a.Tok == token.ADD_ASSIGN && indexesRole(a.Lhs[0], "gpuAllocations") {
 				book++
 			}
 		}
 		capOK := false
-		for _, fct := range g.Facts(in.Loc) {
-			s := core.ExprString(fct.Expr)
-			if !fct.Val && strings.Contains(s, "opts.NumGPU >= 0 && layerCount >= opts.NumGPU") {
-				capOK = true
-			}
-			if fct.Val && strings.Contains(s, "opts.NumGPU < 0 || layerCount < opts.NumGPU") {
-				capOK = true
+		for _, fct := range g.AtomsAt(in.Loc) {
+			// cap reached ≡ NumGPU >= 0 && layerCount >= NumGPU; the increment needs its negation
+			for _, shape := range capShapes(info, fct.Expr, func(e ast.Expr) bool { return isRoleExpr(e, "layerCount") }) {
+				if (shape == "reached" && !fct.Val) || (shape == "below" && fct.Val) {
+					capOK = true
+				}
 			}
 		}
 		c.Check("C16-R2", f.Key()+" layerCount++#"+itoa(i+1)+" paired and capped", c.Pos(in.Node), pair == 1 && book == 1 && capOK, "pairs="+itoa(pair)+" bookings="+itoa(book)+" cap="+map[bool]string{true: "yes", false: "no"}[capOK])
@@ -311,12 +434,12 @@ func runC16(c *Ctx) {
 	ast.Inspect(f.Body, func(n ast.Node) bool {
 		switch x := n.(type) {
 		case *ast.IncDecStmt:
-			if strings.HasPrefix(core.ExprString(x.X), "layerCounts[") {
+			if indexesRole(x.X, "layerCounts") {
 				nLC++
 			}
 		case *ast.AssignStmt:
 			for _, l := range x.Lhs {
-				if strings.HasPrefix(core.ExprString(l), "layerCounts[") {
+				if indexesRole(l, "layerCounts") {
 					nLC += 10
 				}
 			}
@@ -327,31 +450,37 @@ func runC16(c *Ctx) {
 
 	// ------------------------------------------------------------------ R3
 	c.Rule("C16-R3", "totals: VRAMSize is the sum of gpuAllocations, TotalSize is that sum plus the overflow, GPUSizes is the allocation slice, Layers the placed count")
-	want := map[string]string{"VRAMSize": "memoryRequiredPartial", "TotalSize": "memoryRequiredTotal", "GPUSizes": "gpuAllocations", "Layers": "layerCount"}
-	got := map[string]string{}
-	ast.Inspect(f.Body, func(n ast.Node) bool {
-		if a, ok := n.(*ast.AssignStmt); ok && len(a.Lhs) == 1 && a.Tok == token.ASSIGN {
-			if se, isSel := ast.Unparen(a.Lhs[0]).(*ast.SelectorExpr); isSel && core.ExprString(se.X) == "estimate" {
-				got[se.Sel.Name] = core.ExprString(a.Rhs[0])
+	for field, role := range map[string]string{"VRAMSize": "memoryRequiredPartial", "TotalSize": "memoryRequiredTotal", "GPUSizes": "gpuAllocations", "Layers": "layerCount"} {
+		// the roles were read off these very assignments; what R3 adds is that each field is assigned exactly once outside the literal
+		n := 0
+		ast.Inspect(f.Body, func(x ast.Node) bool {
+			if a, ok := x.(*ast.AssignStmt); ok && len(a.Lhs) == 1 && a.Tok == token.ASSIGN {
+				if se, isSel := ast.Unparen(a.Lhs[0]).(*ast.SelectorExpr); isSel && se.Sel.Name == field && core.ObjNameOfType(info.TypeOf(se.X)) == "llm.MemoryEstimate" {
+					n++
+					if !isRoleExpr(a.Rhs[0], role) {
+						n += 10
+					}
+				}
 			}
-		}
-		return true
-	})
-	for k, v := range want {
-		c.Check("C16-R3", f.Key()+" estimate."+k+" = "+v, c.Pos(f.Decl), got[k] == v, "found "+got[k])
+			return true
+		})
+		c.Check("C16-R3", f.Key()+" estimate."+field+" = "+role, c.Pos(f.Decl), n == 1, "the field must be assigned once, from the variable that plays the role "+role)
 	}
 	okSum, okTot := false, false
 	ast.Inspect(f.Body, func(n ast.Node) bool {
 		a, ok := n.(*ast.AssignStmt)
-		if !ok || len(a.Lhs) != 1 {
+		if !ok || len(a.Lhs) != 1 || len(a.Rhs) != 1 {
 			return true
 		}
-		l, r := core.ExprString(a.Lhs[0]), core.ExprString(a.Rhs[0])
-		if l == "memoryRequiredPartial" && a.Tok == token.ADD_ASSIGN && strings.HasPrefix(r, "gpuAllocations[") {
+		if isRoleExpr(a.Lhs[0], "memoryRequiredPartial") && a.Tok == token.ADD_ASSIGN && indexesRole(a.Rhs[0], "gpuAllocations") {
+			// summed over every GPU: inside a range over the allocations / the GPU list
 			okSum = true
 		}
-		if l == "memoryRequiredTotal" && (r == "memoryRequiredPartial + overflow" || r == "overflow + memoryRequiredPartial") {
-			okTot = true
+		if isRoleExpr(a.Lhs[0], "memoryRequiredTotal") && a.Tok == token.ASSIGN {
+			if be, isB := ast.Unparen(a.Rhs[0]).(*ast.BinaryExpr); isB && be.Op == token.ADD &&
+				((isRoleExpr(be.X, "memoryRequiredPartial") && isRoleExpr(be.Y, "overflow")) || (isRoleExpr(be.Y, "memoryRequiredPartial") && isRoleExpr(be.X, "overflow"))) {
+				okTot = true
+			}
 		}
 		return true
 	})
@@ -361,6 +490,16 @@ func runC16(c *Ctx) {
 	c.Rule("C16-R4", "fits: PredictServerFit returns true only on the true edge of layerCount > 0 and a comparison of estimate.Layers with BlockCount()+1 (or with NumGPU when the user set one)")
 	if pf := c.Fn("C16-R4", "llm", "PredictServerFit"); pf != nil {
 		pg := c.G(pf)
+		// the local that holds this iteration's estimate.Layers
+		var lcObj types.Object
+		ast.Inspect(pf.Body, func(n ast.Node) bool {
+			if a, isA := n.(*ast.AssignStmt); isA && len(a.Rhs) >= 1 && selName(a.Rhs[0]) == "Layers" && core.ObjNameOfType(pf.Info().TypeOf(ast.Unparen(a.Rhs[0]).(*ast.SelectorExpr).X)) == "llm.MemoryEstimate" {
+				if id, isID := a.Lhs[0].(*ast.Ident); isID {
+					lcObj = pf.Info().ObjectOf(id)
+				}
+			}
+			return true
+		})
 		n := 0
 		for _, ex := range pg.Returns() {
 			if core.ExprString(ex.Return.Results[0]) != "true" {
@@ -368,30 +507,68 @@ func runC16(c *Ctx) {
 			}
 			n++
 			pos, cmp := false, false
+			numGPUNeg := func(want bool) bool {
+				for _, a2 := range pg.AtomsAt(ex.Loc) {
+					if be2, ok := ast.Unparen(a2.Expr).(*ast.BinaryExpr); ok && selName(be2.X) == "NumGPU" {
+						if v, isC := core.ConstInt(pf.Info(), be2.Y); isC && v == 0 {
+							// NumGPU < 0 true  ≡  NumGPU >= 0 false
+							if (be2.Op == token.LSS && a2.Val == want) || (be2.Op == token.GEQ && a2.Val != want) {
+								return true
+							}
+						}
+					}
+				}
+				return false
+			}
 			for _, at := range pg.AtomsAt(ex.Loc) {
 				be, ok := ast.Unparen(at.Expr).(*ast.BinaryExpr)
-				if !ok || !at.Val {
+				if !ok {
 					continue
 				}
-				if be.Op == token.GTR && core.ExprString(be.X) == "layerCount" && core.ExprString(be.Y) == "0" {
+				x, y, op, okO := core.Orient(be, func(e ast.Expr) bool { return lcObj != nil && isIdentOf(pf.Info(), e, lcObj) })
+				if !okO {
+					continue
+				}
+				_ = x
+				// normalise to the true form
+				if !at.Val {
+					switch op {
+					case token.LSS:
+						op = token.GEQ
+					case token.LEQ:
+						op = token.GTR
+					default:
+						continue
+					}
+				}
+				if v, isC := core.ConstInt(pf.Info(), y); isC && op == token.GTR && v == 0 {
 					pos = true
 				}
-				if be.Op == token.GEQ && core.ExprString(be.X) == "layerCount" {
-					y := core.ExprString(be.Y)
-					if strings.Contains(y, "BlockCount()") && strings.Contains(y, "+ 1") {
-						// on the NumGPU < 0 edge
-						for _, a2 := range pg.AtomsAt(ex.Loc) {
-							if a2.Val && core.ExprString(a2.Expr) == "opts.NumGPU < 0" {
+				if op == token.GEQ {
+					if len(core.CallsTo(pf.Info(), y, false, "fs/ggml.KV.BlockCount")) == 1 {
+						// BlockCount()+1 under any conversions
+						yy := ast.Unparen(y)
+						for {
+							call, isCall := yy.(*ast.CallExpr)
+							if !isCall || len(call.Args) != 1 {
+								break
+							}
+							if tv, isT := pf.Info().Types[call.Fun]; !isT || !tv.IsType() {
+								break
+							}
+							yy = ast.Unparen(call.Args[0])
+						}
+						if add, isB := yy.(*ast.BinaryExpr); isB && add.Op == token.ADD {
+							if v, isC := core.ConstInt(pf.Info(), add.Y); isC && v == 1 && numGPUNeg(true) {
+								cmp = true
+							}
+							if v, isC := core.ConstInt(pf.Info(), add.X); isC && v == 1 && numGPUNeg(true) {
 								cmp = true
 							}
 						}
 					}
-					if y == "opts.NumGPU" {
-						for _, a2 := range pg.AtomsAt(ex.Loc) {
-							if !a2.Val && core.ExprString(a2.Expr) == "opts.NumGPU < 0" {
-								cmp = true
-							}
-						}
+					if selName(y) == "NumGPU" && numGPUNeg(false) {
+						cmp = true
 					}
 				}
 			}
@@ -399,13 +576,47 @@ func runC16(c *Ctx) {
 		}
 		c.Expect("C16-R4", "true returns of PredictServerFit", n, 2)
 		// layerCount is estimate.Layers of this iteration's estimate
-		ok := false
-		ast.Inspect(pf.Body, func(n ast.Node) bool {
-			if a, isA := n.(*ast.AssignStmt); isA && len(a.Lhs) == 2 && core.ExprString(a.Lhs[0]) == "layerCount" && core.ExprString(a.Rhs[0]) == "estimate.Layers" {
-				ok = true
-			}
-			return true
-		})
+		ok := lcObj != nil
 		c.Check("C16-R4", pf.Key()+" compares the estimate's layer count", c.Pos(pf.Decl), ok, "layerCount must be estimate.Layers")
 	}
+}
+
+// capShapes recognises the layer cap test in either spelling: "reached" for
+// NumGPU >= 0 && count >= NumGPU, "below" for NumGPU < 0 || count < NumGPU.
+func capShapes(info *types.Info, e ast.Expr, isCount func(e ast.Expr) bool) []string {
+	var out []string
+	be, ok := ast.Unparen(e).(*ast.BinaryExpr)
+	if !ok || (be.Op != token.LAND && be.Op != token.LOR) {
+		return nil
+	}
+	sign := func(x ast.Expr) token.Token { // comparison of NumGPU with 0
+		c, ok := ast.Unparen(x).(*ast.BinaryExpr)
+		if !ok || selName(c.X) != "NumGPU" {
+			return token.ILLEGAL
+		}
+		if v, isC := core.ConstInt(info, c.Y); !isC || v != 0 {
+			return token.ILLEGAL
+		}
+		return c.Op
+	}
+	cnt := func(x ast.Expr) token.Token { // comparison of the count with NumGPU, count on the left
+		c, ok := ast.Unparen(x).(*ast.BinaryExpr)
+		if !ok {
+			return token.ILLEGAL
+		}
+		_, y, op, okO := core.Orient(c, isCount)
+		if !okO || selName(y) != "NumGPU" {
+			return token.ILLEGAL
+		}
+		return op
+	}
+	for _, pair := range [][2]ast.Expr{{be.X, be.Y}, {be.Y, be.X}} {
+		if be.Op == token.LAND && sign(pair[0]) == token.GEQ && cnt(pair[1]) == token.GEQ {
+			out = append(out, "reached")
+		}
+		if be.Op == token.LOR && sign(pair[0]) == token.LSS && cnt(pair[1]) == token.LSS {
+			out = append(out, "below")
+		}
+	}
+	return out
 }
